@@ -45,6 +45,13 @@ static int32 GetInflatedSizeAux(const uint8 * compBytes, uint32 numComp, bool * 
    return -1;
 }
 
+// No deflated stream can inflate to more than about 1032 times its own size, so a header that declares more than
+// that is bogus; we want to find that out before we allocate the declared number of bytes, not after.
+static bool IsInflatedSizePlausible(int32 rawLen, uint32 numComp)
+{
+   return (((uint64)rawLen) <= ((((uint64)(numComp-ZLIB_CODEC_HEADER_SIZE))+1)*1100));
+}
+
 class ZLibCodecImp
 {
 public:
@@ -133,7 +140,7 @@ public:
 
       bool independent;
       const int32 rawLen = GetInflatedSizeAux(compBytes, numComp, &independent);
-      if ((rawLen >= 0)&&(_inflateOkay))
+      if ((rawLen >= 0)&&(_inflateOkay)&&(IsInflatedSizePlausible(rawLen, numComp)))
       {
          if (rawLen == 0) return GetByteBufferFromPool(0);  // corner-case of a compressed zero-byte buffer
          if ((independent)&&(inflateReset(&_inflater) != Z_OK))
@@ -166,6 +173,7 @@ public:
       const int32 rawLen = GetInflatedSizeAux(compBytes, numComp, &independent);
       if (rawLen < 0)            return B_BAD_ARGUMENT;
       if (_inflateOkay == false) return B_BAD_OBJECT;
+      if (IsInflatedSizePlausible(rawLen, numComp) == false) return B_BAD_DATA;
       if (rawLen == 0) {outBuf.Clear(); return B_NO_ERROR;}  // corner-case of a compressed zero-byte buffer
 
       if ((independent)&&(inflateReset(&_inflater) != Z_OK))
